@@ -33,12 +33,23 @@ from translator import docs2cases
 PROP = "C19"
 FLAGS = ["q_concat_global_names", "q_concat_dedup_by_name", "q_concat_name_table"]
 NF = len(FLAGS)
+SL_RULE = "stateless-class.violation"
+# quirk-parametric models, in the order of the bit lists of Model/EmbedRun2.v (after the print list)
+DETECTORS = [
+    {"name": "string-concat", "rule": "performance.string-concat-loop", "flags": FLAGS, "model": "Model/PerfConcat.v"},
+    {"name": "stateless-class", "rule": SL_RULE, "flags": ["q_sl_exempt_test_name", "q_sl_exempt_mixin_name", "q_sl_lookup_by_name"],
+     "model": "Model/StatelessCls.v"},
+    {"name": "method-property", "rule": "method-property.should-be-property", "flags": ["q_mp_class_body_only"], "model": "Model/MethodProp.v"},
+]
+MP_RULE = "method-property.should-be-property"
+ACTUALS = "concat_actual stateless_actual method_actual"
 FILE_LEVEL = ("file-header",)
-HEADER = ("From TL Require Import Lib.Base Lib.GenTypes Gen.EmbedGen Model.Embed Model.PrintStmt Model.PerfConcat "
-          "Model.EmbedRun Actual.EmbedActual.\n")
+HEADER = ("From TL Require Import Lib.Base Lib.GenTypes Gen.EmbedGen Model.Embed Model.PrintStmt Model.PerfConcat Model.StatelessCls "
+          "Model.MethodProp Model.EmbedRun Model.EmbedRun2 Actual.EmbedActual.\n")
 PRINT_RULE = "improper-logging.print-statement"
 CONCAT_RULE = "performance.string-concat-loop"
-MODELLED = (PRINT_RULE, CONCAT_RULE)
+MODELLED = (PRINT_RULE, CONCAT_RULE, SL_RULE, "method-property.should-be-property")
+MODELLED_LINTERS = ("perf", "improper-logging", "stateless-class", "method-property")
 STATEMENT_LEVEL = {"perf", "improper-logging", "lbyl", "magic-numbers", "unwrap-abuse", "clone-abuse", "blocking-async",
                    "lazy-ignores", "pipeline"}
 GAP = 2            # blank lines between copies
@@ -49,7 +60,7 @@ CLI_CMD = {"pipeline": "pipeline", "perf": "perf", "improper-logging": "improper
            "blocking-async": "blocking-async"}
 
 PY_FILLER_CLASSES = ["AfterFiller", "BeforeFiller", "AfterOpenFiller", "AfterNamesList", "AfterNamesStr", "AfterNamesNum",
-                     "BeforeNamesList", "BeforeNamesNum", "FnIfAfter", "MethodTryBefore", "IfWithFnFiller"]
+                     "BeforeNamesList", "BeforeNamesNum", "AfterNamesClass", "BeforeNamesClass", "ClassIf", "FnIfAfter", "MethodTryBefore", "IfWithFnFiller"]
 TIMES_CLASSES = ["Times2", "Times3", "Times5"]
 PY_CLASSES = list(E.PY_LAYERS) + PY_FILLER_CLASSES + TIMES_CLASSES + E.rename_classes()
 TS_CLASSES = list(E.TS_LAYERS) + ["AfterFiller", "BeforeFiller"] + TIMES_CLASSES
@@ -58,11 +69,19 @@ NAME_SPEC: dict = {}      # filled from the documents on every run (docs2cases.n
 
 
 def spec_for(ex) -> dict:
-    """documented name rules that a renaming of this fragment has to respect"""
-    if ex["linter"] == "modelled":      # generated fragments are judged by the two modelled rules
-        a, b = NAME_SPEC.get("perf", {}), NAME_SPEC.get("improper-logging", {})
-        return {k: list(a.get(k, [])) + list(b.get(k, [])) for k in set(a) | set(b)}
-    return NAME_SPEC.get(ex["linter"], {})
+    """documented name rules that a renaming of this fragment has to respect: those of the example's own linter and, for
+    Python fragments, those of the modelled rules, which are judged on every Python fragment"""
+    parts = [NAME_SPEC.get(ex["linter"], {})]
+    if ex["lang"] == "py":
+        parts += [NAME_SPEC.get("perf", {}), NAME_SPEC.get("method-property", {})]
+    out: dict = {}
+    for p in parts:
+        for k, v in p.items():
+            if isinstance(v, bool):
+                out[k] = out.get(k, False) or v
+            else:
+                out[k] = list(dict.fromkeys(list(out.get(k, [])) + list(v)))
+    return out
 
 
 # ------------------------------------------------------------------ fragments
@@ -126,9 +145,13 @@ def ctx_for(cls: str, lang: str, code: str):
     if cls == "AfterOpenFiller":
         return E.seq(E.FILLER_OPEN, H)
     if cls.startswith("AfterNames"):
-        return E.seq(E.names_filler(code, cls[10:].lower()), H)
+        fl = E.names_filler(code, cls[10:].lower())
+        return E.seq(fl, H) if fl else None
     if cls.startswith("BeforeNames"):
-        return E.seq([], H, ["", ""] + E.names_filler(code, cls[11:].lower()))
+        fl = E.names_filler(code, cls[11:].lower())
+        return E.seq([], H, ["", ""] + fl) if fl else None
+    if cls == "ClassIf":
+        return E.layer("InClassBody", E.layer("InIf", H))
     if cls == "FnIfAfter":
         return E.seq(E.FILLER_CLOSED, E.layer("InFn", E.layer("InIf", H)))
     if cls == "MethodTryBefore":
@@ -269,7 +292,11 @@ def _ireps(reports, fname, rule, colback=None):
             col = r[3]
             if colback is not None:
                 col = colback(r[2], r[3])
-            out.append(f"({r[2]}, {col}, {coq.coq_string(r[4])})")
+            msg = r[4]
+            if rule == MP_RULE:      # message texts of this rule are not modelled: class and method name stand for the message
+                m = re.match(r"Method '([^']*)'(?: in class '([^']*)')?", msg)
+                msg = f"{m.group(2) or ''}|{m.group(1)}" if m else msg
+            out.append(f"({r[2]}, {col}, {coq.coq_string(msg)})")
     return coq.coq_list(out)
 
 
@@ -298,8 +325,9 @@ def judge_all(frags, cases, workdir, per_shard=6):
             name = f["files"][0]["name"]
             me = f"frag_{len(idx)}"
             body.append(f"Definition {me} := {f['coq']}.")
-            body.append(f"Definition iso_{me} := Eval vm_compute in (outs concat_actual {me}, print_default {me}).")
-            body.append(f"Eval vm_compute in (judge_iso concat_actual {me} {_ireps(f['iso']['v'], name, PRINT_RULE)} {_ireps(f['iso']['v'], name, CONCAT_RULE)}).")
+            body.append(f"Definition iso_{me} := Eval vm_compute in (all_outs {ACTUALS} {me}).")
+            impls = " ".join(_ireps(f['iso']['v'], name, r) for r in [PRINT_RULE] + [d["rule"] for d in DETECTORS])
+            body.append(f"Eval vm_compute in (judge_iso2 {ACTUALS} iso_{me} {impls}).")
             idx.append(("iso", fid))
             for i in by_frag.get(fid, []):
                 c = cases[i]
@@ -311,12 +339,12 @@ def judge_all(frags, cases, workdir, per_shard=6):
                     back = lambda line, col, cm=cm: _col_back(cm, line, col)   # noqa: E731
                 role = c.get("hole_role", "body")
                 if role == "body":
-                    fx, io, ip = me, f"(fst iso_{me})", f"(snd iso_{me})"
+                    fx, io = me, f"iso_{me}"
                 else:      # else / finally positions: the fragment's statements hang under that field of the wrapper
                     fx = f"(rerole {coq.coq_string(role)} {me})"
-                    io, ip = f"(outs concat_actual {fx})", f"(print_default {fx})"
-                body.append(f"Eval vm_compute in (judge_embed concat_actual {c['coq_emb']} {fx} {io} {ip} "
-                            f"{_ireps(c['got']['v'], name, PRINT_RULE, back)} {_ireps(c['got']['v'], name, CONCAT_RULE, back)}).")
+                    io = f"(all_outs {ACTUALS} {fx})"
+                impls = " ".join(_ireps(c['got']['v'], name, r, back) for r in [PRINT_RULE] + [d["rule"] for d in DETECTORS])
+                body.append(f"Eval vm_compute in (judge_embed2 {ACTUALS} {c['coq_emb']} {fx} {io} {impls}).")
                 idx.append(("emb", i))
                 if c.get("check_algebra"):
                     body.append(f"Eval vm_compute in (algebra_ok {c['coq_emb']} {fx} {E.forest(c['emb']['text'])}).")
@@ -335,9 +363,9 @@ def judge_all(frags, cases, workdir, per_shard=6):
             raise RuntimeError(f"expected {len(idx)} results, got {len(out)}")
         for (kind, key), o in zip(idx, out):
             if kind == "iso":
-                iso_bits[key] = [bool(b) for b in o]
+                iso_bits[key] = [[bool(b) for b in l] for l in o]
             elif kind == "emb":
-                emb_bits[key] = [bool(b) for b in o]
+                emb_bits[key] = [[bool(b) for b in l] for l in o]
             else:
                 alg[key] = bool(o)
     return iso_bits, emb_bits, alg
@@ -408,6 +436,7 @@ def load_known(chk: Check):
     directly so that the check does not depend on the assembly step having been run"""
     p = VERIF / "known.d" / f"{PROP}.json"
     if p.exists():
+        chk.known = {"known": {}, "fixed": {}}      # known.d is authoritative for this property (known_findings.json may lag behind)
         for f in json.loads(p.read_text()).get("findings", []):
             if f.get("property") == PROP and f.get("status") == "known":
                 chk.known["known"].setdefault(f["key"], f)
@@ -569,7 +598,7 @@ def run(tier: str, seed: int, replay: str | None = None) -> int:
     chk.trusted_base += [
         "docs2cases: which fenced blocks count as examples and what the document claims about them (label / heading / inline marker rules, stated in translator/docs2cases.py); blocks it cannot parse are listed in the evidence, not judged",
         "CPython ast is the parser oracle of the two modelled detectors: the abstract input is the image of ast.parse (harness/c19_embed.py conv); Model/Embed.v plug/copies/rename are compared with the parse of the really embedded text on sampled cases of every context class (algebra_ok)",
-        "detectors other than print-statement and string-concat-loop (method-property, stateless-class, pipeline, lbyl, stringly-typed, cqs, regex-in-loop, conditional-verbose, lazy-ignores, file-header, the TypeScript analyzers) are NOT modelled: for them the embedding law is tested on the implementation (metamorphic validation justified by the locality theorem, not a proof about those detectors)",
+        "four detectors are modelled (print-statement, string-concat-loop, stateless-class, method-property; message texts of method-property are not modelled); the others (pipeline, lbyl, stringly-typed, cqs, regex-in-loop, conditional-verbose, lazy-ignores, file-header, the TypeScript analyzers) are NOT modelled: for them the embedding law is tested on the implementation (metamorphic validation justified by the locality theorem, not a proof about those detectors)",
         "inline suppression directives are outside the two models (fragments carrying noqa / thailint: comments are not judged by the models; C04 covers directives)",
     ]
     chk.build(["theories/Props/C19.v"], ["EmbedGen"], known_v=["theories/Props/C19Known.v"])
@@ -642,7 +671,7 @@ def run(tier: str, seed: int, replay: str | None = None) -> int:
         fr = frags[c["fid"]]
         if not fr.get("coq"):
             continue
-        relevant = (fr["kind"] != "doc" or fr["ex"]["linter"] in ("perf", "improper-logging")
+        relevant = (fr["kind"] != "doc" or fr["ex"]["linter"] in MODELLED_LINTERS
                     or any(r[0] in MODELLED for r in fr["iso"]["v"]) or any(r[0] in MODELLED for r in c["got"]["v"]))
         if not relevant and tier == "quick":
             chk.dist("model_embedded:skipped_no_modelled_report")
@@ -665,12 +694,11 @@ def run(tier: str, seed: int, replay: str | None = None) -> int:
     _t(chk, "coq judging")
 
     # ---------------- decisions
-    cands_all = None       # does the implementation match [actual, -global, -dedup, ideal] on every file?
+    cands_all = [None] * len(DETECTORS)    # per detector: does the implementation match [actual, -flag..., ideal] on every file?
     pr_all = True
 
-    def upd(bits4):
-        nonlocal cands_all
-        cands_all = bits4 if cands_all is None else [a and b for a, b in zip(cands_all, bits4)]
+    def upd(k, bits):
+        cands_all[k] = bits if cands_all[k] is None else [a and b for a, b in zip(cands_all[k], bits)]
 
     for fid in fids:
         fr = frags[fid]
@@ -702,9 +730,10 @@ def run(tier: str, seed: int, replay: str | None = None) -> int:
         if fid in iso_bits:
             b = iso_bits[fid]
             chk.traces_validated += 1
-            pr_all = pr_all and b[0]
-            upd(b[1:NF + 3])
-            if not b[0]:
+            pr_all = pr_all and b[0][0]
+            for k in range(len(DETECTORS)):
+                upd(k, b[1 + k])
+            if not b[0][0]:
                 chk.correspondence_broken({"level": "print model vs implementation (isolated)", "fragment": fid, "text": fr["files"][0]["code"][:800],
                                            "impl": [r for r in iso["v"] if r[0] == PRINT_RULE]})
 
@@ -718,7 +747,7 @@ def run(tier: str, seed: int, replay: str | None = None) -> int:
             chk.violation({"reason": "linting the embedded example failed internally", "detail": got.get("error") or got["failures"][:3],
                            "fragment": _frag_payload(fr), "context_class": c["cls"], "embedded": c["files"]})
             continue
-        prefixes = [ex["rule_prefix"]] + ([PRINT_RULE, CONCAT_RULE] if fr["lang"] == "py" else [])
+        prefixes = [ex["rule_prefix"]] + (list(MODELLED) if fr["lang"] == "py" else [])
         if c["cls"] in E.LOOP_CLASSES:      # a loop around the fragment is not a neutral context for the loop rules
             prefixes = [p for p in prefixes if not p.startswith("performance")]
         moved = [r for r in iso["v"] if r[0].startswith(tuple(prefixes))]
@@ -729,17 +758,19 @@ def run(tier: str, seed: int, replay: str | None = None) -> int:
         bits = emb_bits.get(i)
         if bits is not None:
             chk.traces_validated += 1
-            pr_all = pr_all and bits[0]
-            upd(bits[2:4 + NF])
-            if not bits[0]:
+            pr_all = pr_all and bits[0][0]
+            for k, d in enumerate(DETECTORS):
+                upd(k, bits[1 + k][:len(d["flags"]) + 2])
+            if not bits[0][0]:
                 chk.correspondence_broken({"level": "print model vs implementation (embedded)", "fragment": c["fid"], "context_class": c["cls"],
                                            "text": c["files"][0]["code"][:800], "impl": [r for r in got["v"] if r[0] == PRINT_RULE]})
-            dom_pr, dom_cc = bits[6 + 2 * NF], bits[7 + 2 * NF]
-            if dom_pr and not bits[1]:
+            doms = bits[-1]
+            if doms[0] and not bits[0][1]:
                 chk.broken.append(f"Model:print model violates its own locality theorem on {c['fid']} / {c['cls']} (impossible unless judge and theorem diverged)")
-            if dom_cc and not bits[5 + 2 * NF]:
-                chk.broken.append(f"Model:ideal concat model violates its own locality theorem on {c['fid']} / {c['cls']}")
-            chk.dist("concat_domain:" + ("in" if dom_cc else "outside"))
+            for k, d in enumerate(DETECTORS):
+                if doms[1 + k] and not bits[1 + k][-1]:
+                    chk.broken.append(f"Model:ideal {d['name']} model violates its own locality theorem on {c['fid']} / {c['cls']}")
+                chk.dist(f"{d['name']}_theorem_domain:" + ("in" if doms[1 + k] else "outside"))
         if i in alg and not alg[i]:
             chk.correspondence_broken({"level": "algebra: plug/copies/rename differs from the parse of the embedded text", "fragment": c["fid"],
                                        "context_class": c["cls"], "text": c["files"][0]["code"][:800]})
@@ -765,22 +796,26 @@ def run(tier: str, seed: int, replay: str | None = None) -> int:
                 for t in p.get(k, []):
                     rules_hit.add(t[0])
         for rule in sorted(rules_hit):
-            if rule == CONCAT_RULE and fr["lang"] == "py":
+            det = next((k for k, d in enumerate(DETECTORS) if d["rule"] == rule), None)
+            if det is not None and fr["lang"] == "py":
+                d = DETECTORS[det]
+                nf = len(d["flags"])
                 if bits is None:
-                    chk.violation({**payload, "note": "string-concat law failure on a file outside the model's domain"})
+                    chk.violation({**payload, "note": f"{d['name']} law failure on a file outside the model's domain"})
                     continue
-                cand = bits[2:4 + NF]
-                law = bits[4 + NF:6 + 2 * NF]
-                explained = cand[0] and law[NF + 1] and not law[0] and iso_bits.get(c["fid"], [0, 0])[1]
-                relevant = [FLAGS[k] for k in range(NF) if not cand[1 + k] or law[1 + k] != law[0]]
+                cand = bits[1 + det][:nf + 2]
+                law = bits[1 + det][nf + 2:]
+                iso_ok = iso_bits.get(c["fid"], [[0]] * (2 + det))[1 + det][0]
+                explained = cand[0] and law[nf + 1] and not law[0] and iso_ok
+                relevant = [d["flags"][k] for k in range(nf) if not cand[1 + k] or law[1 + k] != law[0]]
                 if explained and not relevant:
-                    relevant = list(FLAGS)
+                    relevant = list(d["flags"])
                 if explained:
                     for k in relevant:
                         chk.known_finding(k, {"fragment": fr["files"][0]["code"], "context_class": c["cls"], "embedded": c["files"][0]["code"],
                                               "problems": problems[:3]})
                 else:
-                    chk.violation({**payload, "model_actual_matches_impl": cand[0], "ideal_model_satisfies_law": law[NF + 1], "actual_model_satisfies_law": law[0]})
+                    chk.violation({**payload, "model_actual_matches_impl": cand[0], "ideal_model_satisfies_law": law[nf + 1], "actual_model_satisfies_law": law[0]})
             elif rule == PRINT_RULE and fr["lang"] == "py":
                 chk.violation({**payload, "note": "the print-statement detector is proved local; no known finding can explain this"})
             else:
@@ -810,14 +845,15 @@ def run(tier: str, seed: int, replay: str | None = None) -> int:
 
     if not pr_all:
         pass   # already recorded case by case
-    if cands_all is not None and not cands_all[0]:
-        names = ["actual"] + ["actual without " + f for f in FLAGS] + ["ideal"]
-        alt = [k for k, ok in enumerate(cands_all) if ok]
-        if alt:
-            chk.notes.append("string-concat implementation no longer matches the claimed quirk vector but matches: " + names[alt[0]] +
-                             " on every file (a listed defect is no longer observed; the locality theorem covers that vector)")
-        else:
-            chk.correspondence_broken({"level": "observable", "detail": "Model/PerfConcat.v under Actual/EmbedActual.v disagrees with the implementation and no candidate quirk vector matches all files"})
+    for k, d in enumerate(DETECTORS):
+        if cands_all[k] is not None and not cands_all[k][0]:
+            names = ["actual"] + ["actual without " + f for f in d["flags"]] + ["ideal"]
+            alt = [j for j, ok in enumerate(cands_all[k]) if ok]
+            if alt:
+                chk.notes.append(f"{d['name']} implementation no longer matches the claimed quirk vector but matches: " + names[alt[0]] +
+                                 " on every file (a listed defect is no longer observed; the locality theorem covers that vector)")
+            else:
+                chk.correspondence_broken({"level": "observable", "detail": f"{d['model']} under Actual/EmbedActual.v disagrees with the implementation and no candidate quirk vector matches all files"})
     _t(chk, "decisions")
     # show a failure that is new in kind first: string-concat failures that could not be attributed only because the
     # model could not be evaluated look like the listed findings and go last
